@@ -2,6 +2,9 @@ import Ptn.C08.Model
 import Ptn.C08.Lemmas
 import Ptn.C08.Stages
 import Ptn.C08.StepLemmas
+import Ptn.C08.Value
+import Ptn.C08.SwapValue
+import Ptn.C08.StepValue
 /-! Property theorems for C08 (a TEBD step is the ordered product of its Trotter gates and SWAPs).
 Only property theorems and non-vacuity examples live here; helper lemmas are in `Lemmas.lean`
 (splitting, SWAP), `LegLemmas.lean` and `Stages.lean` (leg bookkeeping).
@@ -261,6 +264,181 @@ theorem exponents_plain_list (keys : List Nat) (b a : List (Nat × Nat)) (rest :
       exponentSites (⟨keys, .swaplist b, .swaplist a⟩ :: rest) := by
   rw [exponents_match_splitting, exponents_match_splitting]
   rfl
+
+
+/-! ### (v) value level: one gate application
+
+The theorems above say WHICH legs are bound; the following say WHAT is computed (`Ptn/Common/Einsum*.lean`:
+a tensor is a function of index assignments, a bound pair is a sum over a common index), over every
+commutative semiring of scalars and for all dimensions (`dim` is arbitrary: mixed physical dimensions). -/
+
+open Ptn.Ein in
+/-- **Two-site gate, value level.**  Pair `P` / `C` as in `two_site_gate_legs`, either naming order.  The
+model completes with a result `r` and, for every commutative semiring, all dimensions and every labelled
+network consisting of the tensors `TP`, `TC` of the pair joined by their bond, further tensors `rest` and
+further bonds `bs` (virtual legs, each bound once): GIVEN the identities the three library routines compute,
+
+* `C  = Σ_bond TP·TC`            (`contract_nodes`: `tensordot` over the pair's bond),
+* `A' = Σ_{r.binds} G·C`         (`absorb_into_open_legs`: `tensordot` over the pairs PROVED by the leg theorem:
+                                   gate input `k` with the `k`-th physical leg in naming order),
+* `A' = Σ_newbond U·V`           (contract of `split_node_svd`, truncation disabled: an exact factorisation),
+
+a gate that reads only gate legs and a rest of the network that reads neither of the two bonds nor the legs
+bound to the gate, the new network (`U` = first-named node, `V` = second-named node, new bond between their
+`Leg.bond` legs) has for every assignment of the open legs the value
+`Σ_in G[out; in] · ψ[…, in, …]`, `ψ` the value of the old network. -/
+theorem two_site_gate_value {R : Type} [CommSemiring R] (p c : Nat) (pp : Option Nat) (A B K : List Nat)
+    (oP oC : Nat) (h : PairOK p c pp A B K) :
+    (∃ r, twoSite p (mkNode p pp (A ++ c :: B) oP) c (mkNode c (some p) K oC) = some r ∧
+      ∀ (dim : VLeg → Nat) (bs : List (VLeg × VLeg)) (G TP TC C A' U V : Asg VLeg → R)
+        (rest : List (Asg VLeg → R)),
+        (Expr.pairLegs bs).Nodup → (∀ l ∈ Expr.pairLegs bs, l.isOwn) →
+        (∀ τ, C τ = sumPairs dim [(glob p (Leg.nb c), glob c (Leg.nb p))] (fun ρ => TP ρ * TC ρ) τ) →
+        (∀ τ, A' τ = sumPairs dim (gatePairs r.binds) (fun ρ => G ρ * C ρ) τ) →
+        (∀ τ, A' τ = sumPairs dim [(glob p Leg.bond, glob c Leg.bond)] (fun ρ => U ρ * V ρ) τ) →
+        (∀ f ∈ rest, DependsOn (EnvReads (glob p (Leg.nb c)) (glob c (Leg.nb p)) (glob p Leg.bond)
+          (glob c Leg.bond) (gatePairs r.binds)) f) →
+        DependsOn GateReads G →
+        ∀ σ, netValue dim (bs ++ [(glob p Leg.bond, glob c Leg.bond)]) (U :: V :: rest) σ =
+          sumPairs dim (gatePairs r.binds) (fun τ => G τ *
+            netValue dim (bs ++ [(glob p (Leg.nb c), glob c (Leg.nb p))]) (TP :: TC :: rest) τ) σ) ∧
+    (∃ r, twoSite c (mkNode c (some p) K oC) p (mkNode p pp (A ++ c :: B) oP) = some r ∧
+      ∀ (dim : VLeg → Nat) (bs : List (VLeg × VLeg)) (G TP TC C A' U V : Asg VLeg → R)
+        (rest : List (Asg VLeg → R)),
+        (Expr.pairLegs bs).Nodup → (∀ l ∈ Expr.pairLegs bs, l.isOwn) →
+        (∀ τ, C τ = sumPairs dim [(glob p (Leg.nb c), glob c (Leg.nb p))] (fun ρ => TP ρ * TC ρ) τ) →
+        (∀ τ, A' τ = sumPairs dim (gatePairs r.binds) (fun ρ => G ρ * C ρ) τ) →
+        (∀ τ, A' τ = sumPairs dim [(glob c Leg.bond, glob p Leg.bond)] (fun ρ => U ρ * V ρ) τ) →
+        (∀ f ∈ rest, DependsOn (EnvReads (glob p (Leg.nb c)) (glob c (Leg.nb p)) (glob c Leg.bond)
+          (glob p Leg.bond) (gatePairs r.binds)) f) →
+        DependsOn GateReads G →
+        ∀ σ, netValue dim (bs ++ [(glob c Leg.bond, glob p Leg.bond)]) (U :: V :: rest) σ =
+          sumPairs dim (gatePairs r.binds) (fun τ => G τ *
+            netValue dim (bs ++ [(glob p (Leg.nb c), glob c (Leg.nb p))]) (TP :: TC :: rest) τ) σ) := by
+  have hne : p ≠ c := h.p_notin.2.2.2
+  refine ⟨⟨_, twoSite_parentFirst oP oC h, ?_⟩, ⟨_, twoSite_childFirst oP oC h, ?_⟩⟩
+  · intro dim bs G TP TC C A' U V rest hbs1 hbs2 hC hA hUV hrest hG σ
+    exact two_site_value_core dim p c p c _ (nodup_gate_legs p c oP oC hne) (gatePairs_not_own _)
+      bs G TP TC C A' U V rest hbs1 hbs2 hC hA hUV hrest hG σ
+  · intro dim bs G TP TC C A' U V rest hbs1 hbs2 hC hA hUV hrest hG σ
+    exact two_site_value_core dim p c c p _ (nodup_gate_legs c p oC oP (fun e => hne e.symm))
+      (gatePairs_not_own _) bs G TP TC C A' U V rest hbs1 hbs2 hC hA hUV hrest hG σ
+
+open Ptn.Ein in
+/-- **Single-site gate, value level.**  `absorb_into_open_legs` on the node `id` of a labelled network (its
+tensor `T`, further tensors `rest`, bonds `bs`): GIVEN `A' = Σ_{binds} G·T` (one `tensordot` over the pairs
+proved by `single_site_gate_legs`), the network with `A'` in the place of `T` has the value
+`Σ_in G[out; in] · ψ[…, in, …]`. -/
+theorem single_site_gate_value {R : Type} [CommSemiring R] (id : Nat) (par : Option Nat) (ch : List Nat)
+    (o : Nat) :
+    ∃ n' binds, singleSite (mkNode id par ch o) = some (n', binds) ∧
+      ∀ (dim : VLeg → Nat) (bs : List (VLeg × VLeg)) (G T A' : Asg VLeg → R) (rest : List (Asg VLeg → R)),
+        (Expr.pairLegs bs).Nodup → (∀ l ∈ Expr.pairLegs bs, l.isOwn) →
+        (∀ τ, A' τ = sumPairs dim (gatePairs binds) (fun ρ => G ρ * T ρ) τ) →
+        (∀ f ∈ rest, DependsOn (fun l => l ∉ Expr.pairLegs (gatePairs binds)) f) →
+        DependsOn GateReads G →
+        ∀ σ, netValue dim bs (A' :: rest) σ =
+          sumPairs dim (gatePairs binds) (fun τ => G τ * netValue dim bs (T :: rest) τ) σ := by
+  refine ⟨_, _, singleSite_mkNode id par ch o, ?_⟩
+  intro dim bs G T A' rest hbs1 hbs2 hA hrest hG σ
+  exact absorb_gate_value dim bs _ G T A' rest hA hrest (fun l hl h => h hl) hG
+    (fun l hl => own_not_gateReads l (hbs2 l hl))
+    (nodup_env_gate bs _ hbs1 hbs2 (nodup_gate_legs_single id o) (gatePairs_not_own _)) σ
+
+
+/-! ### (vi) value level: the SWAP gate -/
+
+open Ptn.Ein in
+/-- **Applying the SWAP gate exchanges the two physical indices.**  The matrix built by the double loop of
+`swap_gate(d)` (entries by `swap_gate_spec`), read as a gate tensor with output legs `go₀, go₁` and input legs
+`gi₀, gi₁` and contracted into the physical legs `p₀, p₁` (both of dimension `d`) of ANY state vector `ψ`
+that does not read the gate's input legs, gives the vector with the two indices exchanged:
+`(SWAP ψ)[…, go₀ = x, go₁ = y, …] = ψ[…, p₀ = y, p₁ = x, …]` — every `d`, every commutative semiring. -/
+theorem swap_gate_value {L : Type} [DecidableEq L] {R : Type} [CommSemiring R] (dim : L → Nat) (d : Nat)
+    (p0 p1 go0 go1 gi0 gi1 : L) (hnd : [p0, p1, gi0, gi1, go0, go1].Nodup)
+    (hd0 : dim p0 = d) (hd1 : dim p1 = d) (ψ : Asg L → R) {S : L → Prop} (hψ : DependsOn S ψ)
+    (h0 : ¬ S gi0) (h1 : ¬ S gi1) (σ : Asg L) (ho0 : σ go0 < d) (ho1 : σ go1 < d) :
+    sumPairs dim [(p0, gi0), (p1, gi1)] (fun τ => swapTensor d go0 go1 gi0 gi1 τ * ψ τ) σ =
+      ψ (upd (upd σ p0 (σ go1)) p1 (σ go0)) :=
+  swap_apply dim d p0 p1 go0 go1 gi0 gi1 hnd hd0 hd1 ψ hψ h0 h1 σ ho0 ho1
+
+open Ptn.Ein in
+/-- The same inside a TEBD step: operator number `g` on the sites `(a, b)` with the SWAP tensor acts on a
+state vector by exchanging the indices of the two sites' current physical legs. -/
+theorem swap_gate_act {R : Type} [CommSemiring R] (dim : SLeg → Nat) (d g a b : Nat) (cur : Nat → GLeg)
+    (hab : cur a ≠ cur b) (hla : (cur a).lt g) (hlb : (cur b).lt g)
+    (hd0 : dim (SLeg.ph (cur a)) = d) (hd1 : dim (SLeg.ph (cur b)) = d)
+    (φ : Asg SLeg → R) {S : SLeg → Prop} (hφ : DependsOn S φ)
+    (h0 : ¬ S (SLeg.gin g 0)) (h1 : ¬ S (SLeg.gin g 1)) (σ : Asg SLeg)
+    (ho0 : σ (SLeg.ph (GLeg.out g 0)) < d) (ho1 : σ (SLeg.ph (GLeg.out g 1)) < d) :
+    gateAct dim (swapTensor d (SLeg.ph (GLeg.out g 0)) (SLeg.ph (GLeg.out g 1)) (SLeg.gin g 0) (SLeg.gin g 1))
+        cur g [a, b] φ σ =
+      φ (upd (upd σ (SLeg.ph (cur a)) (σ (SLeg.ph (GLeg.out g 1)))) (SLeg.ph (cur b))
+        (σ (SLeg.ph (GLeg.out g 0)))) := by
+  have hne : a ≠ b := fun e => hab (e ▸ rfl)
+  have e : recPairs (specOp g (cur, []) 0 [a, b]).2 =
+      [(SLeg.ph (cur a), SLeg.gin g 0), (SLeg.ph (cur b), SLeg.gin g 1)] := by
+    rw [specOp_two g cur [] a b hne]; rfl
+  simp only [gateAct, e]
+  apply swap_apply dim d _ _ _ _ _ _ _ hd0 hd1 φ hφ h0 h1 σ ho0 ho1
+  have n1 : cur a ≠ GLeg.out g 0 := ne_of_lt_out hla
+  have n2 : cur a ≠ GLeg.out g 1 := ne_of_lt_out hla
+  have n3 : cur b ≠ GLeg.out g 0 := ne_of_lt_out hlb
+  have n4 : cur b ≠ GLeg.out g 1 := ne_of_lt_out hlb
+  simp [hab, n1, n2, n3, n4]
+
+/-! ### (vii) value level: a whole time step, several time steps -/
+
+open Ptn.Ein in
+/-- **One TEBD time step, value level.**  For every well-formed tree and every list of valid operators the
+modelled loop completes and its global binding record `rec'` is the specification fold (`tebd_step_legs`);
+for every commutative semiring, all dimensions and all gate tensors `G g` (gate `g` reads only its own
+output and input legs):
+
+* (record) the flat network "leaves of the old state + gate tensors of the operators that name a site" over
+  the model's record `rec'` evaluates to `actRun`: the fold over the exponent list of the gate action
+  `φ ↦ Σ_in G_g[out; in] · φ[…, in, …]` applied to the old state — the ordered product of the gates (an
+  operator naming no site is skipped, as the code does);
+* (networks) for every chain of labelled networks `ψ = ψ₀, ψ₁, …, ψ_m = ψ'` in which consecutive ones are
+  related by the contracts of the library routines for that operator (`OpContract`: `tensordot` identities of
+  `contract_nodes` / `absorb_into_open_legs` over the pairs of the record, exact factorisation of
+  `split_node_svd` as hypothesis), the state vector after the step is the ordered product of the gates applied
+  to the state vector before: `ψ' = actRun … ψ`. -/
+theorem tebd_step_value {R : Type} [CommSemiring R] (t : List TNode) (hwf : TreeWF t) (ops : List (List Nat))
+    (hv : ∀ op ∈ ops, ValidOp t op) (cur : Nat → GLeg) (rc : List Rec) (g : Nat) (hinv : RecInv cur rc g) :
+    ∃ t' rec', runOps ⟨t, cur, rc⟩ g ops = some ⟨t', (specRun (cur, rc) g ops).1, rec'⟩ ∧
+      ∀ (dim : SLeg → Nat) (G : Nat → Asg SLeg → R), (∀ i, DependsOn (GateReadsS i) (G i)) →
+        (∀ (leaves : List (Asg SLeg → R)) (σ : Asg SLeg),
+          netValue dim (recPairs rec') (gateLeaves G g ops leaves) σ =
+            actRun dim G cur g ops (netValue dim (recPairs rc) leaves) σ) ∧
+        (∀ ψ ψ' : Asg SLeg → R, StepChain dim G cur g ops ψ ψ' → ψ' = actRun dim G cur g ops ψ) := by
+  obtain ⟨t', h1, _⟩ := tebd_step_legs t hwf ops hv cur rc g
+  refine ⟨t', _, h1, ?_⟩
+  intro dim G hG
+  exact ⟨fun leaves σ => record_value dim G hG ops (fun op hop => validOp_form hwf (hv op hop)) cur rc g hinv
+    leaves σ, fun ψ ψ' h => chain_value h⟩
+
+open Ptn.Ein in
+/-- **`k` time steps, value level**: the same with the exponent list repeated `k` times (gates numbered
+consecutively): the state after `k` steps is the ordered product of all `k · |ops|` gates. -/
+theorem tebd_steps_value {R : Type} [CommSemiring R] (t : List TNode) (hwf : TreeWF t) (ops : List (List Nat))
+    (hv : ∀ op ∈ ops, ValidOp t op) (k : Nat) (cur : Nat → GLeg) (rc : List Rec) (g : Nat)
+    (hinv : RecInv cur rc g) :
+    ∃ t' rec', runSteps ops ⟨t, cur, rc⟩ g k =
+        some ⟨t', (specRun (cur, rc) g (List.replicate k ops).flatten).1, rec'⟩ ∧
+      ∀ (dim : SLeg → Nat) (G : Nat → Asg SLeg → R), (∀ i, DependsOn (GateReadsS i) (G i)) →
+        (∀ (leaves : List (Asg SLeg → R)) (σ : Asg SLeg),
+          netValue dim (recPairs rec') (gateLeaves G g (List.replicate k ops).flatten leaves) σ =
+            actRun dim G cur g (List.replicate k ops).flatten (netValue dim (recPairs rc) leaves) σ) ∧
+        (∀ ψ ψ' : Asg SLeg → R, StepChain dim G cur g (List.replicate k ops).flatten ψ ψ' →
+          ψ' = actRun dim G cur g (List.replicate k ops).flatten ψ) := by
+  rw [tebd_steps_compose]
+  apply tebd_step_value t hwf _ _ cur rc g hinv
+  intro op hop
+  rw [List.mem_flatten] at hop
+  obtain ⟨l, hl, hol⟩ := hop
+  rw [(List.mem_replicate.mp hl).2] at hol
+  exact hv op hol
 
 /-! ### non-vacuity -/
 
